@@ -23,7 +23,7 @@ def run(tier, seed, replay=None):
     pts = universe.points(tier, seed, files_quick=2000)
     if tier == "thorough":
         pts = pts[::2]
-    extra = universe.boundary_sources()
+    extra = universe.boundary_sources() + universe.name_sources()
     for i, (name, text) in enumerate(extra):
         for w in (60, 100) if tier == "quick" else (40, 60, 80, 100, 120):
             se = RELEASED[(i + w) % 4]
